@@ -22,6 +22,7 @@ import (
 	"strconv"
 	"strings"
 	"sync"
+	"syscall"
 	"testing"
 	"time"
 
@@ -1198,8 +1199,14 @@ func (g *w13Gen) genTextStream() ([]byte, []string) {
 	out = append(out, pre...)
 	notes = append(notes, pn)
 	for _, p := range g.pieces("commands", 1, 12, func(sg *w13Gen) w13Piece {
+		sg.hasAdm = false
 		a := sg.genTextArgs()
 		b, n := sg.renderRESP(a)
+		if sg.hasAdm {
+			// variants of administrative commands that cannot take effect stay exactly as drawn: a lying
+			// bulk length can turn `SLAVEOF "" 1` into an effective `SLAVEOF <host> <port>`
+			b, n = sg.renderPlain(a)
+		}
 		if sg.known.appendNil && len(a) >= 3 && strings.ToUpper(a[0]) == "APPEND" {
 			// APPEND answers through a nil value when the key has none: give it one first
 			sg.exclude("APPEND on a key without value (known finding)")
@@ -1884,7 +1891,24 @@ func FuzzC13_Wire(f *testing.F) {
 		}
 	}
 	st := vstat("FuzzC13_Wire")
-	_ = os.Setenv("MALLOC_ARENA_MAX", "2") // inherited by the fuzz workers, see w13SuperviseOnce
+	if os.Getenv("MALLOC_ARENA_MAX") == "" {
+		// The test binary links libc: every OS thread reserves a 64 MiB malloc arena, and the fuzzing
+		// coordinator (16 worker pipes, 16 x 100 MiB shared memory) and its workers run out of the
+		// driver's 6 GiB address-space limit within seconds. The variable is read when a process starts:
+		// when fuzzing, start this process again with it set (same pid, nothing has run yet).
+		fuzzing := false
+		for _, a := range os.Args {
+			if strings.HasPrefix(a, "-test.fuzz=") || a == "-test.fuzz" {
+				fuzzing = true
+			}
+		}
+		_ = os.Setenv("MALLOC_ARENA_MAX", "2")
+		if fuzzing {
+			if exe, err := os.Executable(); err == nil {
+				_ = syscall.Exec(exe, os.Args, os.Environ())
+			}
+		}
+	}
 	// fuzz workers are separate processes that are killed, not ended: they leave their statistics in
 	// $VERIF_STATS.w<pid> every few executions and the coordinator merges those files when f.Fuzz returns
 	worker := false
